@@ -200,6 +200,12 @@ BROKEN = {
     "types": {"a.go": "package a\n\nfunc F() int { x := 1; x = x + 1; return \"s\" }\n\nfunc G(xs []int) bool { return len(xs) >= 0 }\n"},
     "import": {"a.go": "package a\n\nimport \"example.com/nowhere/zzz\"\n\nfunc F() { zzz.G() }\n\nfunc G(xs []int) bool { return len(xs) >= 0 }\n"},
     "mixed": {"a.go": "package a\n\nfunc F() {}\n", "b.go": "package b\n\nfunc G() {}\n"},
+    # files whose package clause does not parse: the parser returns a stub file without a position
+    "empty": {"a.go": "package a\n\nfunc F(xs []int) bool { return len(xs) >= 0 }\n", "empty.go": ""},
+    "noclause": {"a.go": "package a\n\nfunc F(xs []int) bool { return len(xs) >= 0 }\n", "typo.go": "pakage a\n\nfunc G() {}\n"},
+    "commentonly": {"a.go": "package a\n\nfunc F(xs []int) bool { return len(xs) >= 0 }\n", "c.go": "// only a comment\n\n/* and a block */\n"},
+    "onlyempty": {"empty.go": ""},
+    "clauseonly_bad": {"a.go": "package\n"},
     "undefined": {"a.go": "package a\n\nfunc F() { var x T; x.m(); y := undefinedFn(x); _ = y }\n\nfunc H(s string) bool { return len(s) == 0 }\n",
                   "b.go": ILL_TYPED},
 }
